@@ -117,7 +117,7 @@ def table():
         m = json.load(open(mp))
         ev = (m.get('evaluated') or {}).get('quick') or {}
         th = (m.get('evaluated') or {}).get('thorough') or {}
-        caught = ', '.join(ev.get('caught_by') or []) or ('**missed in quick**' + ('; thorough: ' + ', '.join(th.get('caught_by') or ['missed']) if th else ''))
+        caught = ', '.join(ev.get('caught_by') or []) or (('not caught: ' + m['disposition']) if m.get('disposition') else '**missed in quick**' + ('; thorough: ' + ', '.join(th.get('caught_by') or ['missed']) if th else ''))
         keys = []
         for c, v in (ev.get('checks') or {}).items():
             keys += v.get('mechanisms', [])[:2]
